@@ -9,7 +9,7 @@ Compositional argument, each link a rule:
      FD     FdReader (success only when read() returned the byte, 0 => ReadLimitReached)
   3. SD1-SD4: the failure reaches the caller unchanged (every status-producing site of the decoders)
 """
-from .. import facts, report, rwrules, tablerules
+from .. import facts, report, rwrules, tablerules, encrules
 from . import c10, c16
 
 
@@ -27,6 +27,8 @@ def rules(chk, db):
     rwrules.check_fd_class(chk, db, 'nop::FdReader', 'reader', 'FD')
     c16.rules(chk, db, prefix='BR.', only={'nop::BoundedReader'})
     tablerules.rules(chk, db, {'TS', 'TR', 'TL'})
+    # every documented part of an encoding is demanded from the reader: all elements / members / the variant payload (also NIL)
+    encrules.read_rules(chk, db, want=('ELT', 'RST'))
     c10.rules(chk, db, scope=lambda fn: 'body' in fn and fn['file'].startswith('nop/base/') or
               ('body' in fn and fn['file'] in ('nop/utility/bounded_reader.h',)), prefix='')
     for r in ('SD1', 'SD2', 'SD3', 'SD4'):
